@@ -29,6 +29,12 @@ class Break(Exception):
         self.v = v
 
 
+class Continue(Exception):
+    """`continue` of the innermost interpreted loop body"""
+    def __init__(self, to=None):
+        self.to = to
+
+
 class Panic(Exception):
     def __init__(self, msg=""):
         self.msg = msg
@@ -118,6 +124,24 @@ class Opaque:
         return "<%s>" % self.what
 
 
+class ElemRef:
+    """`&mut container[i]` for a container modelled as a python list"""
+    __slots__ = ("c", "i")
+
+    def __init__(self, c, i):
+        self.c = c
+        self.i = i
+
+    def get(self):
+        return self.c[self.i]
+
+    def set(self, v):
+        self.c[self.i] = v
+
+    def __repr__(self):
+        return "&mut [..][%r]" % (self.i,)
+
+
 class Oracle:
     """DFS enumeration of nondeterministic choices"""
 
@@ -200,6 +224,8 @@ class Interp:
         if k == "bind":
             if "sub" in p and not self.match(p["sub"], v, env):
                 return False
+            if p["n"] in (env.get("$mut") or ()):
+                raise Unrecognised("binding shadows the mutable local %s" % p["n"])
             env[p["n"]] = v
             return True
         if k == "ref":
@@ -300,6 +326,9 @@ class Interp:
         res = e.get("res")
         if res == "local":
             n = e["n"]
+            mut = env.get("$mut")
+            if mut is not None and n in mut:
+                return mut[n]
             if n not in env:
                 raise Unrecognised("unbound local %s" % n)
             return env[n]
@@ -357,12 +386,23 @@ class Interp:
         return tuple(self.ev(x, env) for x in e["a"])
 
     def ev_ref(self, e, env):
-        return self.ev(e["e"], env)
+        x = e["e"]
+        if e.get("m") and x.get("k") == "index":
+            c = self.ev(x["e"], env)
+            if isinstance(c, list):
+                i = self.ev(x["i"], env)
+                if not isinstance(i, int) or not 0 <= i < len(c):
+                    raise Panic("index %r out of bounds" % (i,))
+                return ElemRef(c, i)
+        return self.ev(x, env)
 
     def ev_break(self, e, env):
         if "to" not in e:
             raise Unrecognised("break without a resolved target")
         raise Break(e["to"], self.ev(e["e"], env) if "e" in e else ())
+
+    def ev_continue(self, e, env):
+        raise Continue(e.get("to"))
 
     def ev_block(self, e, env):
         if "lbl" in e:
@@ -466,7 +506,7 @@ class Interp:
         o = e["o"]
         v = self.ev(e["e"], env)
         if o == "*":
-            return v
+            return v.get() if isinstance(v, ElemRef) else v
         if o == "!":
             if isinstance(v, bool):
                 return not v
@@ -519,6 +559,11 @@ class Interp:
                 return l << r
             if o == ">>":
                 return l >> r
+            if o in ("/", "%"):
+                if r == 0:
+                    raise Panic("division by zero")
+                q = abs(l) // abs(r) * (1 if (l >= 0) == (r >= 0) else -1)    # truncating, as in Rust
+                return q if o == "/" else l - q * r
         if isinstance(l, bool) and isinstance(r, bool):
             if o == "^":
                 return l != r
@@ -595,12 +640,48 @@ class Interp:
             if r is None:
                 raise Unrecognised("assignment to an element of %r" % (c,))
             return ()
+        self.store(lhs, self.ev(e["r"], env), env)
+        return ()
+
+    def store(self, lhs, v, env):
+        if lhs.get("k") == "path" and lhs.get("res") == "local":
+            mut = env.get("$mut")
+            if mut is None or lhs["n"] not in mut:
+                raise Unrecognised("assignment to local %s that is not modelled as mutable" % lhs["n"])
+            mut[lhs["n"]] = v
+            return
+        if lhs.get("k") == "un" and lhs.get("o") == "*":
+            r = self.ev(lhs["e"], env)
+            if isinstance(r, ElemRef):
+                r.set(v)
+                return
         raise Unrecognised("assignment to %s" % lhs.get("k"))
+
+    def ev_assignop(self, e, env):
+        lhs = e["l"]
+        while lhs.get("k") in ("use",):
+            lhs = lhs["e"]
+        o = e["o"].rstrip("=") if isinstance(e.get("o"), str) else None
+        if o is None:
+            raise Unrecognised("compound assignment operator")
+        cur = self.ev(lhs, env)
+        r = self.ev(e["r"], env)
+        if isinstance(cur, int) and isinstance(r, int) and not isinstance(cur, bool) and o in ("+", "-", "*", "|", "&", "^", "<<", ">>"):
+            v = {"+": cur + r, "-": cur - r, "*": cur * r, "|": cur | r, "&": cur & r, "^": cur ^ r,
+                 "<<": cur << r, ">>": cur >> r}[o]
+        else:
+            v = self.dom.binop(self, o, cur, r)
+            if v is None:
+                raise Unrecognised("compound assignment %s on %r, %r" % (o, cur, r))
+        self.store(lhs, v, env)
+        return ()
 
     def ev_index(self, e, env):
         v = self.ev(e["e"], env)
         i = self.ev(e["i"], env)
-        if isinstance(v, tuple) and isinstance(i, int):
+        if isinstance(v, (tuple, list)) and isinstance(i, int) and not isinstance(i, bool):
+            if not 0 <= i < len(v):
+                raise Panic("index %r out of bounds" % (i,))
             return v[i]
         raise Unrecognised("index")
 
@@ -641,6 +722,8 @@ def enumerate_runs(make_interp, run):
             out = ("infeasible", "")
         except Break:
             out = ("unrecognised", "break out of a block that is not interpreted")
+        except Continue:
+            out = ("unrecognised", "continue outside an interpreted loop body")
         except Unrecognised as u:
             out = ("unrecognised", str(u))
         yield list(it.trace), out
